@@ -12,6 +12,7 @@
       -> [SendKind::send] ([apply_to_response]).  Every stage is the model another property
       already ties to the code; the composition only threads their outcomes.
     Definitions only; proofs live in Proofs/PanicsProofs.v. *)
+From Coq Require Import ZArith.
 From KV Require Import Bytes RustInt RustStd.
 From KV Require PathSan Range RangeConn Http1Read Hosts Negotiate Cors CacheControl Limiter.
 Open Scope N_scope.
@@ -548,6 +549,42 @@ Definition run_c02_path (x : xval) : xval :=
       | _, _, _ => bad_input
       end
   | _ => bad_input
+  end.
+
+(** ** Numbers a client controls, and how the request path compares them
+
+    - weights of list members ([accept-encoding]; [accept-language] only in callbacks of the operator): [f32::from_str]
+      ([Negotiate.parse_q_dec]); the core tests them with [== 0.0], [!= 0.0] and [== 1.0] only, which are total on every binary32
+      value ([Negotiate.qclass]: NaN, the infinities and negative numbers are "other").  Nothing orders or sorts them: [f32] is only
+      [PartialOrd], and [a.partial_cmp(&b)] is [None] as soon as one side is NaN.  What a rewrite that ORDERS the client's weights
+      with [sort_by(|a, b| b.quality.partial_cmp(&a.quality).unwrap())] would do is [sort_weights] below: a panic for every list of
+      two or more members one of whose weights is "nan" ([weight_order_variant_refuted]) — the reason why the live exploration
+      sends such lists to every kind of page.
+    - [range]: [u64::from_str] twice ([Range.sanitize_range]); [as usize] only after the clamp to the body length ([Range.apply_range]).
+    - [content-length]: [usize::from_str] ([Http1Read.body_length]); the body reader's [(len - buffer.len()) as u64] widens.
+    - [if-modified-since]: the time crate's parser, integer fields with fixed widths ([Ims.parse_http_date]); the comparison is
+      on [OffsetDateTime] (total).
+    - [stream_body]: [pos += read as u64] (widens), [read - (pos - end) as usize] (below the 64 KiB buffer; [stream_chunk]).
+    - no [from_str_radix] on the request path (percent-decoding is the percent-encoding crate's; kvarn parses no hex or chunk sizes). *)
+Inductive fweight := FNan | FVal (v : Z).     (* a binary32 value as [partial_cmp] sees it: NaN, or a point of the total order -inf .. +inf *)
+Definition partial_cmp (a b : fweight) : option comparison :=
+  match a, b with FVal x, FVal y => Some (x ?= y)%Z | _, _ => None end.
+(** [slice::sort_by] on up to 20 elements is an insertion sort; the comparator is [|a, b| b.partial_cmp(a).unwrap()] (descending,
+    stable); the members are inserted from the last to the first *)
+Fixpoint insert_weight {A} (x : A * fweight) (l : list (A * fweight)) : outcome (list (A * fweight)) :=
+  match l with
+  | [] => Ok [x]
+  | y :: r =>
+      match partial_cmp (snd y) (snd x) with
+      | None => Panic                                          (* unwrap on None *)
+      | Some Gt => obind (insert_weight x r) (fun r' => Ok (y :: r'))
+      | Some _ => Ok (x :: y :: r)                             (* x came before y: it stays before a member of equal weight *)
+      end
+  end.
+Fixpoint sort_weights {A} (l : list (A * fweight)) : outcome (list (A * fweight)) :=
+  match l with
+  | [] => Ok []
+  | x :: r => obind (sort_weights r) (insert_weight x)
   end.
 
 (** component c02.ae: (L (B accept-encoding value) (N target)) -> Ok (L answer answer), answer = (L (N status) (L [content-encoding])).
